@@ -179,6 +179,19 @@ func genC05(t *rapid.T) c05Case {
 	c.Element = s.Basics[rapid.IntRange(0, len(s.Basics)-1).Draw(t, "el")]
 	foods := append(append([]string{"a", "."}, s.Recipes...), s.Unknown...)
 	c.Food = foods[rapid.IntRange(0, len(foods)-1).Draw(t, "food")]
+	// values whose sums depend on the order of the additions at the printed digit, near ties, huge values
+	if !exact && rapid.IntRange(0, 2).Draw(t, "tricky") == 0 {
+		tricky := []string{"0.005", "0.01", "0.15", "0.1", "0.3", "-0.4", "1e16", "1", "0.100", "0.104", "0.108", "0.5", "0.504", "0.508", "0.015", "2.675", "1e15", "-1e16"}
+		for _, d := range []*vDoc{&c.S.Book, &c.S.Log} {
+			for ri := range d.Recs {
+				for li := range d.Recs[ri].Lines {
+					if d.Recs[ri].Lines[li].Kind == vkEntry && rapid.IntRange(0, 1).Draw(t, "trickyhere") == 0 {
+						d.Recs[ri].Lines[li].Num = tricky[rapid.IntRange(0, len(tricky)-1).Draw(t, "trickyv")]
+					}
+				}
+			}
+		}
+	}
 	if rapid.IntRange(0, 5).Draw(t, "cycle") == 0 {
 		plain := vLayout{Indent: "  ", Sep: ": ", EOL: "\n"}
 		c.S.Book.Recs = append(c.S.Book.Recs,
